@@ -666,7 +666,13 @@ def run_property(modname, tier, seed, replay=None, n_override=None):
         if sig in seen_why and len(seen_why) >= 1:
             continue
         seen_why.add(sig)
-        small = shrink(cases[i], lambda c: bool(fails(c)))
+        def still_new(c):
+            # shrinking must not drift into a listed known finding: the replay
+            # has to be an input that fails because of the change at hand
+            w = fails(c)
+            return bool(w) and is_known(c, w) is None
+
+        small = shrink(cases[i], still_new)
         path = write_replay(
             pid,
             "failing-input",
